@@ -142,8 +142,9 @@ class Planner:
         """an execution that hits EIO / ENOSPC / a crash at a seeded write, then follow-ups"""
         rng = self.rng("fault", i)
         bp = rng.choice(self.valid)
-        kind = rng.weighted([(3, "crash"), (2, "eio"), (2, "enospc")])
-        phase = rng.weighted([(3, "cache"), (2, "project")])
+        # every kind x phase combination comes round every six fault histories
+        kind = ["crash", "eio", "enospc"][i % 3]
+        phase = ["cache", "project"][(i // 3 + i) % 2]
         steps = []
         if phase == "cache":
             # make sure the faulted run has something to insert
@@ -169,7 +170,7 @@ class Planner:
         """every crash point of the SDK-persist phase"""
         rng = self.rng("crash_enum", i)
         other = rng.choice([b for b in self.valid if b != bp])
-        pre = rng.weighted([(2, "golden_other"), (1, "none"), (1, "golden")])
+        pre = rng.weighted([(3, "golden_other"), (2, "none")])  # both make the run rewrite every file
         steps = [{"op": "seed_outdir", "proj": "p0", "state": pre, "bp": other if pre == "golden_other" else bp, "toggles": []},
                  {"op": "crash_enum", "prefix_draw": 1 + rng.below(1 << 16), "exec": _ex(rng, bp, diag="diag.dot")}]
         self.add("crash_enum", rng, steps)
@@ -186,27 +187,27 @@ class Planner:
             for i, bp in enumerate(self.valid):
                 self.sweep(i, bp)
             r = self.rng("mix", 0)
-            for i in range(4 if q else 17 * 6):
+            for i in range(4 if q else 17 * 4):
                 self.sweep(100 + i, self.invalid[(i * 5 + r.below(3)) % len(self.invalid)])
-            for i in range(22 if q else 420):
+            for i in range(22 if q else 260):
                 self.edit(i)
-            for i in range(3 if q else 40):
+            for i in range(3 if q else 24):
                 self.touch(i)
-            for i in range(5 if q else 90):
+            for i in range(5 if q else 60):
                 self.sibling(i)
-            for i in range(4 if q else 80):
+            for i in range(4 if q else 50):
                 self.evict(i)
-            for i in range(5 if q else 120):
+            for i in range(6 if q else 72):
                 self.fault(i)
-            for i in range(1 if q else 8):
+            for i in range(1 if q else 4):
                 self.readonly(i)
-            enum_bps = [self.valid[r.below(len(self.valid))] for _ in range(2 if q else 12)]
+            enum_bps = [self.valid[r.below(len(self.valid))] for _ in range(2 if q else 8)]
             for i, bp in enumerate(enum_bps):
                 self.crash_enum(i, bp)
-            for i in range(1 if q else 6):
+            for i in range(1 if q else 4):
                 self.empty(i)
             if not q:
-                for rep in range(1, 14):
+                for rep in range(1, 9):
                     for i, bp in enumerate(self.valid):
                         self.sweep(1000 * rep + i, bp)
         else:  # C09: the program dimension is the whole corpus, crossed with seeds / cache / out-dir states
